@@ -6,6 +6,7 @@ import json
 import types
 
 import svenv
+import os
 from common import C, app, coq, some
 from propcheck import Suite, list_cuts
 import drv_node
@@ -219,7 +220,8 @@ class RealCluster:
                           [(idx(x), v.value) for x, v in sm.instance_states.items()], list(self.pending[k]),
                           len(self.inbox[k])))
         chans = [len(self.chan.get((i, j), [])) for i in self.members for j in self.members]
-        return (nodes, chans)
+        views = [(k, NodeSuite.views(self.supv[k])) for k in self.members]
+        return (nodes, chans, views)
 
 
 class ClusterSuite(Suite):
@@ -237,6 +239,16 @@ class ClusterSuite(Suite):
         if evals:
             self.evals = dict(evals)
         self.quick, self.thorough = quick, thorough
+
+    def corpus(self):
+        """ witnesses of cluster-level findings (fixed: cluster_park_*; known: cluster_window_*), quiet tail included """
+        import glob
+        out = []
+        if self.quiet_rounds:
+            for path in sorted(glob.glob(os.path.join(os.path.dirname(__file__), 'corpus', 'cluster_*.json'))):
+                with open(path) as f:
+                    out.append(self.from_description(json.load(f)))
+        return out
 
     def generate(self, rng, tier):
         n, max_acts = self.quick if tier == 'quick' else self.thorough
@@ -384,9 +396,11 @@ class ClusterSuite(Suite):
         obs = []
         for tag, val in observed['obs']:
             if tag == 'ok':
-                nodes_o, chans = val
-                obs.append(app('COk', ([(k, up, f, m, list(insts), list(pend), nin)
-                                        for k, up, f, m, insts, pend, nin in nodes_o], list(chans))))
+                nodes_o, chans, views = val
+                obs.append(app('COk', (([(k, up, f, m, list(insts), list(pend), nin)
+                                         for k, up, f, m, insts, pend, nin in nodes_o], list(chans)),
+                                       [(k, [(j, f, d, m, list(insts)) for j, f, d, m, insts in vs])
+                                        for k, vs in views])))
             else:
                 obs.append(app('CCrash', C(val)))
         return coq((cluster, eacts, obs))
@@ -474,7 +488,13 @@ class ClusterSuite(Suite):
             cl = RealCluster(self, cfg, members)
             cut, now = list(cut), 1000
             try:
-                for a in cut:
+                for k, a in enumerate(cut):
+                    if a[0] == 'AHandshakeLate' and cl.pending_ts.get(a[1]):
+                        # keep the schedule physically possible after a cut: a handshake never starts before its
+                        # request was queued
+                        t1 = int(cl.pending_ts[a[1]][0]) + 1
+                        if a[2] < t1:
+                            a = cut[k] = ('AHandshakeLate', a[1], t1, max(t1, a[3]))
                     cl.apply(a)
                     now = max([now] + [x for x in a[1:] if isinstance(x, int) and x >= 1000])
             except Exception:
